@@ -19,6 +19,7 @@ import (
 	"path/filepath"
 	"sort"
 	"sync"
+	"time"
 
 	NoKV "github.com/feichai0017/NoKV"
 	"github.com/feichai0017/NoKV/manifest"
@@ -41,6 +42,12 @@ type Net struct {
 	nodes []*Node
 
 	Sent, Delivered, Dropped, Undeliverable int
+
+	// Filter, when set, is consulted by Deliver: a message for which it returns
+	// false is discarded (counted in Cut) instead of being stepped into the
+	// destination.  Multi-node drivers model partitions with it.
+	Filter func(myraft.Message) bool
+	Cut    int
 }
 
 // Send implements transport.Transport.
@@ -101,6 +108,18 @@ func (n *Net) Duplicate(i int) bool {
 	return ok
 }
 
+// MoveToBack re-queues the i-th message behind every other queued message
+// (reordering without loss).
+func (n *Net) MoveToBack(i int) bool {
+	m, ok := n.take(i)
+	if ok {
+		n.mu.Lock()
+		n.queue = append(n.queue, m)
+		n.mu.Unlock()
+	}
+	return ok
+}
+
 // Deliver removes the i-th queued message and steps it into the open node that
 // hosts the destination peer.  A message whose destination is not hosted by any
 // open, connected node is discarded (as a real transport would fail to dial).
@@ -108,6 +127,12 @@ func (n *Net) Deliver(i int) error {
 	m, ok := n.take(i)
 	if !ok {
 		return fmt.Errorf("sim: no message at %d", i)
+	}
+	if f := n.Filter; f != nil && !f(m) {
+		n.mu.Lock()
+		n.Cut++
+		n.mu.Unlock()
+		return nil
 	}
 	dst := n.hostOf(m.To)
 	if dst == nil {
@@ -189,6 +214,8 @@ type NodeConfig struct {
 	Raft myraft.Config
 	// DBOptions may adjust the NoKV options used by StorageDB.
 	DBOptions func(*NoKV.Options)
+	// CommandTimeout is store.Config.CommandTimeout (0 = the store's default, 3 s).
+	CommandTimeout time.Duration
 }
 
 // Apply is one invocation of the command applier observed on a node.
@@ -325,9 +352,10 @@ func (n *Node) Open() (err error) {
 		inner = kv.NewApplier(n.DB)
 	}
 	n.Store = store.NewStoreWithConfig(store.Config{
-		StoreID:     n.Cfg.StoreID,
-		Manifest:    n.Manifest,
-		PeerBuilder: n.PeerConfig,
+		StoreID:        n.Cfg.StoreID,
+		Manifest:       n.Manifest,
+		PeerBuilder:    n.PeerConfig,
+		CommandTimeout: n.Cfg.CommandTimeout,
 		RegionHooks: store.RegionHooks{
 			OnRegionUpdate: func(m manifest.RegionMeta) {
 				n.mu.Lock()
